@@ -22,5 +22,6 @@ CONSTANTS
   MaxPos = 2
   MaxKw = 1
   BugRuntimeIgnoresKwDefaults = FALSE
+  BugStringDropsAllowUnpack = FALSE
   FixedDunder = FALSE
 CHECK_DEADLOCK FALSE
